@@ -26,6 +26,7 @@ type witness struct {
 	Funcs  []string `json:"funcs"`
 	Expect string   `json:"expect"`
 	Note   string   `json:"note"`
+	Obls   []string `json:"obls"` // optional: only obligations whose name contains one of these
 }
 
 type witnessOutcome struct {
@@ -183,6 +184,14 @@ func (pc *propCheck) replayTranslator(o *Obligation, con *Contract) replayResult
 		for _, f := range w.Funcs {
 			if f == con.FuncName || strings.Contains(o.Name, " in "+strings.TrimPrefix(strings.TrimPrefix(f, "(Ctx)."), "(Binding).")+"#") {
 				tagged = true
+			}
+		}
+		if tagged && len(w.Obls) > 0 {
+			tagged = false
+			for _, sub := range w.Obls {
+				if strings.Contains(o.Name, sub) {
+					tagged = true
+				}
 			}
 		}
 		if !tagged {
